@@ -259,6 +259,8 @@ def loop_variants(kind, inner, level):
         out.append(base + [('if', [[B]], [('if', [[('continue',)]], None), ('break',)])])
         out.append([B, ('if', [[('if', [[B], [('break',)]], [('if', [[('continue',)]], None)])]], None)] + ([inner] if inner else []) + [B])
         out.append([('if', [[B]], [('if', [[B]], [('if', [[('break',)]], None), ('continue',)])])] + ([inner] if inner else []))
+        # several continue / break sites of the same loop
+        out.append([('if', [[('continue',)]], None), B, ('if', [[('continue',)]], [('break',)]), ('if', [[('break',)]], None)] + ([inner] if inner else []) + [('continue',)])
     elif level == 'some':
         out.append([B, ('if', [[('break',)]], None)] + ([inner] if inner else []) + [B, ('if', [[('continue',)]], None), B])
     return out
